@@ -119,6 +119,11 @@ def generate(seed, tier):
                 kq = rw.choice(["grid", "between", "below", "above"])
                 q.append([kq, rw.randrange(0, 64), round(rw.uniform(0.05, 0.95), 4)])
             ops.append(["meas", o, rw.choice(interp), q, rw.random() < 0.4])
+        elif r < 0.955:
+            # drawing a result is one more way of reading it: afterwards every attribute must still have its value
+            ops.append(["plot", o, rw.choice([None, "bode", "bode", "asd", "psd", "coh", "csd", "cf"]),
+                        {"dB": rw.random() < 0.4, "deg": rw.random() < 0.6, "unwrap": rw.random() < 0.5, "errors": rw.random() < 0.5,
+                         "sigma": rw.choice([1, 1, 3])}])
         else:
             ops.append([rw.choice(["len", "repr", "dir"]), o])
         if nobj > 8:
@@ -337,6 +342,8 @@ def execute(sc, out):
                 _check_meas(o, op, truth, nf, out)
                 if single or uniform_k:
                     out.nontrivial = True
+            elif kind == "plot":
+                _plot(o, op[2], op[3], iscsd, out)
             elif kind == "len":
                 if len(o) != nf:
                     out.violate("len", "len", f"len(result)={len(o)} nf={nf}")
@@ -357,9 +364,9 @@ def execute(sc, out):
         for name in ALL_NAMES:
             if truth.get(name) is RAISED:
                 continue
-            if name == "compute_t":
-                truth[name] = _snap(res.compute_t)
             try:
+                if name == "compute_t":
+                    truth[name] = _snap(res.compute_t)
                 v = getattr(o, name)
             except Exception as e:
                 out.violate("exception", f"getattr:{name}", f"final sweep object #{oi} ({_lineage(origin, oi)}): {type(e).__name__}: {str(e)[:200]}")
@@ -369,6 +376,33 @@ def execute(sc, out):
                 out.violate(cls, name, f"final sweep: object #{oi} ({_lineage(origin, oi)}) {name} differs from the pristine value")
             out.observe(name, v if v is not None and name != "compute_t" else None)
     out.summary = {"kind": sc["kind"], "csd": iscsd, "nf": nf, "nops": len(sc["ops"]), "objects": len(objs)}
+
+
+def _plot(o, which, kw, iscsd, out):
+    """Draw the result on an off-screen canvas.  What the picture looks like is not specified; that the result is
+    unchanged afterwards is (the final sweep and every later access compare with the pristine values)."""
+    import matplotlib
+
+    matplotlib.use("Agg", force=True)
+    import matplotlib.pyplot as plt
+
+    if which in ("coh", "csd", "cf", "bode") and not iscsd:
+        which = "asd"
+    if which in ("asd", "psd") and iscsd:
+        which = "bode"
+    import warnings
+
+    try:
+        with warnings.catch_warnings():
+            warnings.simplefilter("ignore")
+            o.plot(which, **kw)
+        out.count("plot_drawn")
+    except (ValueError, TypeError) as e:
+        # a request the plotting front-end refuses (e.g. log axis of an all-zero trace) is not part of C20
+        out.count("plot_refused")
+        out.extra["plot_refused"] = f"{type(e).__name__}: {str(e)[:120]}"
+    finally:
+        plt.close("all")
 
 
 _XSCRIPT = r"""
@@ -514,6 +548,21 @@ def _check_r3(truth, res, iscsd, nf, out):
             for a, b in (("csd", "Gxy"), ("tf", "Hxy")):
                 if g(a) is not None and g(b) is not None and not _eq(g(a), g(b)):
                     out.violate("derived_formula", a, f"{a} is not the same estimate as {b}")
+        # "standard deviations and normalised random errors" of the same estimate: dev = |estimate| * error
+        pairs = [("Gxx_dev", "Gxx", "Gxx_error"), ("Gyy_dev", "Gyy", "Gyy_error")]
+        if iscsd:
+            pairs += [("Gxy_dev", "Gxy", "Gxy_error"), ("Hxy_dev", "Hxy", "Hxy_mag_error"), ("coh_dev", "coh", "coh_error")]
+        for dev, est, err in pairs:
+            d_, e_, r_ = g(dev), g(est), g(err)
+            if d_ is None or e_ is None or r_ is None:
+                continue
+            d_ = np.asarray(d_, dtype=np.float64)
+            prod = np.abs(np.asarray(e_)) * np.abs(np.asarray(r_, dtype=np.float64))
+            m = np.isfinite(d_) & (np.abs(np.asarray(e_)) > 0)       # where the deviation is a number, so is the error
+            scale = float(np.max(np.abs(d_[m]))) if np.any(m) else 0.0
+            if np.any(m) and not np.all(np.abs(d_[m] - prod[m]) <= 1e-9 * np.abs(d_[m]) + 1e-300 + 1e-14 * scale):
+                j = int(np.flatnonzero(m)[np.argmax(np.where(np.isfinite(prod[m]), np.abs(d_[m] - prod[m]), np.inf))])
+                out.violate("derived_formula", err, f"{dev}[{j}]={d_[j]!r} but |{est}|*{err}={prod[j]!r}")
     out.count("oracle_r3")
 
 
